@@ -17,7 +17,16 @@ has_act = z3.Function("has_active", Id, B)
 act_id = z3.Function("active_id", Id, Id)
 act_key = z3.Function("active_key", Id, KPath)
 dep = z3.Function("dep", Id, Id, B)  # dep(x, d): d is the id of a dependency (arg, kwarg or activation) of x
+argdep = z3.Function("argdep", Id, Id, B)  # d is referenced by a positional argument of x
+kwdep = z3.Function("kwdep", Id, Id, B)  # d is referenced by a keyword argument of x
 node_of = z3.Function("node_of", Fut, Id)  # ghost: the node a future was created for
+
+
+def dependencies_summary():
+    """summary contract of ExecNode.dependencies (proved in contracts/nodeexec.py Dependencies: positional references,
+    then keyword references, then the activation reference iff there is one)"""
+    a, b = bv("a!dp", Id), bv("b!dp", Id)
+    return z3.ForAll([a, b], dep(a, b) == z3.Or(argdep(a, b), kwdep(a, b), z3.And(has_act(a), act_id(a) == b)))
 
 
 def VAL(rdom, rval, i, k):
@@ -61,6 +70,9 @@ class SUxn(Sym):
 
     def result(self, results):
         return C.ghost["hooks"].uxn_result(self, results)
+
+    def _vc_subst(self, v, w):
+        return SUxn(z3.substitute(self._i, (v, w)), z3.substitute(self._k, (v, w)))
 
     def _vc_isinstance(self, cls):
         from tawazi.node import UsageExecNode
